@@ -9,7 +9,8 @@
      [k |-> "V", c |-> 0|1]   the interpolated string, verbatim, as one run of "ch" (0) / "av" (1) events
      [k |-> "A", c |-> 0|1]   a run of "ch"/"av" events whose content is not claimed (RAWTEXT parents,
                               sanitiser results, script bodies): structure only
-   This spec runs HtmlTok (PreStep + Step) over `out` and feeds every emitted event to a matcher:
+   This spec runs HtmlTok (PreStep + Step) over `out` and feeds every emitted event to the matcher of
+   HtmlMatch.tla:
      Structure  (InContext at the level of the whole output): the event stream is exactly the author's
                 pattern with SOME run at each placeholder -- nothing added, nothing split;
      Verbatim   the run at a "V" placeholder is the input, modulo the tokenizer's input preprocessing
@@ -18,70 +19,13 @@
    Tokenizer and matcher are folded together with FoldLeft (no event list is built, no deep recursion).
    One TLC run validates a whole batch: every step consumes one line, failing case ids are collected
    (not stopped at) and printed at the end together with the number of consumed lines.             *)
-EXTENDS HtmlTok, Json
-LOCAL INSTANCE SequencesExt
+EXTENDS HtmlMatch, Json
 
 Trace == ndJsonDeserialize("trace.ndjson")
 Sinks == JsonDeserialize("sinks.json")
 
 VARIABLES i, fails
 vars == <<i, fails>>
-
-Kind(n) == IF n = 1 THEN "av" ELSE "ch"
-IsHole(pe) == pe.k = "A" \/ pe.k = "V"
-
-(* matcher state: pi pattern index, j next input index inside a V run, pcr "previous input symbol was CR",
-   sok structure holds so far, vok verbatim holds so far *)
-M0 == [pi |-> 1, j |-> 1, pcr |-> FALSE, sok |-> TRUE, vok |-> TRUE]
-
-\* leaving the hole at pat[m.pi]: a V run must have consumed the whole input (a final LF after CR yields no event)
-Leave(pat, in, m) ==
-    LET pe   == pat[m.pi]
-        done == m.j > Len(in) \/ (m.j = Len(in) /\ in[m.j] = cLF /\ m.pcr)
-    IN  [m EXCEPT !.pi = m.pi + 1, !.j = 1, !.pcr = FALSE, !.vok = m.vok /\ (pe.k = "A" \/ done)]
-
-\* one event of a V run against the input
-RECURSIVE VEat(_, _, _)
-VEat(in, m, got) ==
-    IF m.j > Len(in) THEN [m EXCEPT !.vok = FALSE]
-    ELSE LET x == in[m.j] IN
-         IF x = cLF /\ m.pcr THEN VEat(in, [m EXCEPT !.j = m.j + 1, !.pcr = FALSE], got)
-         ELSE LET ok == IF x = cCR THEN got = cLF
-                        ELSE IF x = cNUL THEN got \in {cNUL, kFFFD}
-                        ELSE IF x = kBADBYTE THEN got = kFFFD
-                        ELSE got = x
-              IN  [m EXCEPT !.j = m.j + 1, !.pcr = (x = cCR), !.vok = m.vok /\ ok]
-
-RECURSIVE MStep(_, _, _, _)
-MStep(pat, in, m, ev) ==
-    IF ~m.sok THEN m
-    ELSE IF m.pi > Len(pat) THEN [m EXCEPT !.sok = FALSE]
-    ELSE LET pe == pat[m.pi] IN
-         IF IsHole(pe)
-         THEN IF ev.k = Kind(pe.c)
-              THEN IF pe.k = "V" /\ m.vok THEN VEat(in, m, ev.c) ELSE m
-              ELSE MStep(pat, in, Leave(pat, in, m), ev)
-         ELSE IF ev.k = pe.k /\ ev.c = pe.c THEN [m EXCEPT !.pi = m.pi + 1]
-         ELSE [m EXCEPT !.sok = FALSE]
-
-RECURSIVE MSteps(_, _, _, _, _)
-MSteps(pat, in, m, evs, n) == IF n > Len(evs) THEN m ELSE MSteps(pat, in, MStep(pat, in, m, evs[n]), evs, n + 1)
-
-RECURSIVE MFinish(_, _, _)
-MFinish(pat, in, m) ==
-    IF ~m.sok \/ m.pi > Len(pat) THEN m
-    ELSE IF IsHole(pat[m.pi]) THEN MFinish(pat, in, Leave(pat, in, m))
-    ELSE [m EXCEPT !.sok = FALSE]
-
-\* tokenizer + matcher over out, folded iteratively (SequencesExt!FoldLeft has a Java override: no deep recursion)
-FoldOp(pat, in, acc, c) ==
-    LET pr == PreStep(acc.p, c) IN
-    IF pr.out = <<>> THEN [acc EXCEPT !.p = pr.p]
-    ELSE LET r == Step(acc.q, pr.out[1]) IN
-         [q |-> r.q, p |-> pr.p, m |-> MSteps(pat, in, acc.m, r.out, 1)]
-Fold(pat, in, out) ==
-    LET f == FoldLeft(LAMBDA acc, c : FoldOp(pat, in, acc, c), [q |-> InitTok, p |-> FALSE, m |-> M0], out)
-    IN  [q |-> f.q, m |-> MFinish(pat, in, f.m)]
 
 Verdict(t) ==
     LET f == Fold(Sinks[t.sink].pat, t.in, t.out) IN
